@@ -73,6 +73,8 @@ fn has_case_collision(words: &BTreeSet<String>) -> Option<String> {
 pub enum WOp {
     Lint(usize, bool), // text index, markdown?
     Ignore(usize),
+    /// ignore a lint of the lint call BEFORE the last one (a second view acting on older results)
+    IgnorePrev(usize),
     Apply(usize, usize),
     Import(usize),
     Migrate,          // export words/ignored/config -> new Linter -> import
@@ -106,6 +108,7 @@ pub fn wops() -> Vec<WOp> {
         WOp::Lint(5, false),
         WOp::Ignore(0),
         WOp::Ignore(1),
+        WOp::IgnorePrev(0),
         WOp::Apply(0, 0),
         WOp::Apply(1, 1),
         WOp::Import(0),
@@ -190,6 +193,7 @@ pub fn run_w_history(ops: &[WOp], seq: &[usize], cache: &mut RefCache) -> (Optio
     let mut cfg: BTreeMap<String, Option<bool>> = BTreeMap::new();
     let mut ignored: Vec<IgnoredEntry> = vec![];
     let mut last: Option<(String, bool, Vec<harper_wasm::Lint>)> = None;
+    let mut prev: Option<(String, bool, Vec<harper_wasm::Lint>)> = None;
     let mut steps = 0u64;
     let mut interesting = false;
     for (si, oi) in seq.iter().enumerate() {
@@ -303,10 +307,16 @@ pub fn run_w_history(ops: &[WOp], seq: &[usize], cache: &mut RefCache) -> (Optio
                 if !ignored.is_empty() || !words.is_empty() || !cfg.is_empty() {
                     interesting = true;
                 }
+                prev = last.take();
                 last = Some((text, *md, got));
             }
-            WOp::Ignore(i) => {
-                let Some((text, md, lints)) = &last else { continue };
+            WOp::Ignore(_) | WOp::IgnorePrev(_) => {
+                let (from, i) = match &ops[*oi] {
+                    WOp::Ignore(i) => (&last, i),
+                    WOp::IgnorePrev(i) => (&prev, i),
+                    _ => unreachable!(),
+                };
+                let Some((text, md, lints)) = from else { continue };
                 let Some(l) = lints.get(*i) else { continue };
                 let Some((inner, flagged)) = inner_of(l) else { continue };
                 let copy = harper_wasm::Lint::from_json(l.to_json()).unwrap();
@@ -375,6 +385,7 @@ fn describe_w(ops: &[WOp], seq: &[usize]) -> Value {
         match &ops[*i] {
             WOp::Lint(t, md) => format!("lint({:?}, {})", W_TEXTS[*t], if *md {"Markdown"} else {"Plain"}),
             WOp::Ignore(i) => format!("ignore_lint(last[{i}])"),
+            WOp::IgnorePrev(i) => format!("ignore_lint(lint {i} of the lint call before the last)"),
             WOp::Apply(i, j) => format!("apply_suggestion(last[{i}], suggestion {j})"),
             WOp::Import(w) => format!("import_words({:?})", W_WORDS[*w]),
             WOp::Migrate => "export words+ignored+config -> new Linter -> import".to_string(),
@@ -404,6 +415,14 @@ pub fn run_c16(tier: Tier) -> i32 {
                 }
                 for x in 0..ops.len() {
                     seqs.push(vec![li, ii, x, li]);
+                }
+            }
+            // "lint A, lint B, ignore a lint of A, lint A again"
+            if let Some(ip) = ops.iter().position(|o| matches!(o, WOp::IgnorePrev(..))) {
+                for (l2, o2) in ops.iter().enumerate() {
+                    if matches!(o2, WOp::Lint(..)) {
+                        seqs.push(vec![li, l2, ip, li]);
+                    }
                 }
             }
         }
@@ -463,7 +482,7 @@ pub fn run_c16(tier: Tier) -> i32 {
     report.set("exhaustive", true);
     report.sample(describe_w(&ops, &[11, 5, 7]));
     report.sample(describe_w(&ops, &[1, 0, 13]));
-    report.assume("operation alphabet of 18 calls over 6 texts, depth bound as stated, American dialect; states = distinct histories (the history is the state; live objects cannot be hashed)");
+    report.assume("operation alphabet of 19 calls over 6 texts, depth bound as stated, American dialect; states = distinct histories (the history is the state; live objects cannot be hashed)");
     report.assume("reference = fresh core pipeline per query with one dictionary child per user word");
     report.finish()
 }
